@@ -423,6 +423,11 @@ def footprint_cases(rng, sysd):
         ("ok", mk_cmd("design", b, rng, struct=True, tempname="t" + u + ".st", output="m" + u + ".mfe")),
         ("ok", mk_cmd("design", "Raw" + b, rng)),
         ("usage", mk_cmd("design", "Nope" + u, rng, tempname="tn")),
+        # names with a directory part: the scratch files are <tempname>.st ... (in job<u>/), the output goes to res<u>/ - nothing else
+        ("ok", mk_cmd("design", b, rng, tempname="job%s/tmp" % u, output="res%s/m.mfe" % u, dirs=["job" + u, "res" + u, "other" + u],
+                      decoys=["res%s/tmp.st" % u, "other%s/tmp.st" % u])),
+        ("ok", mk_cmd("design", b, rng, just_files=False, tempname="job%s/tmp" % u, output="res%s/m.mfe" % u, dirs=["job" + u, "res" + u],
+                      decoys=["res%s/tmp.sp" % u])),
         ("ok", mk_cmd("design", b, rng, tempname="trial=" + u, decoys=["trial_%s%s" % (u, e) for e in TEMP_EXTS])),
         ("ok", mk_cmd("design", b, rng, just_files=False, tempname="trial:" + u, decoys=["trial_%s%s" % (u, e) for e in TEMP_EXTS])),
         # a temp name / output name that is also the name of an existing DIRECTORY of the working directory (a folder of an earlier
